@@ -242,3 +242,72 @@ pub fn check(case: &Case) -> Verdict {
     }
     v
 }
+
+// ---------------------------------------------------------------------------------------------
+// reader totality: whatever text arrives in a frame, the reader answers Ok or Err (it is the
+// reader's rejection that keeps an invalid frame from being delivered); it never panics.
+
+#[derive(Clone, Debug, Serialize, Deserialize)]
+pub struct TextCase {
+    pub text: String,
+}
+
+pub fn arb_text_case() -> impl Strategy<Value = TextCase> {
+    let valid = arb_case().prop_map(|c| String::from_utf8_lossy(&encode(&c)).to_string()).boxed();
+    prop_oneof![
+        // a valid envelope cut short
+        3 => (valid.clone(), any::<u16>()).prop_map(|(t, at)| {
+            let idx: Vec<usize> = t.char_indices().map(|(i, _)| i).collect();
+            if idx.is_empty() { t } else { t[..idx[vcommon::pick_index(at, idx.len())]].to_string() }
+        }),
+        // one character removed / replaced / inserted
+        4 => (valid.clone(), any::<u16>(), 0u8..3, proptest::sample::select(&["\"", "\\", "(", ")", ",", ":", "@", " ", "\n", "{", "}", "\\u", "\\ud800", "\\uDFFF", "%", "a", "1", ";", "\u{0}"][..]))
+            .prop_map(|(t, at, how, ins)| {
+                let idx: Vec<usize> = t.char_indices().map(|(i, _)| i).collect();
+                if idx.is_empty() {
+                    return ins.to_string();
+                }
+                let i = idx[vcommon::pick_index(at, idx.len())];
+                let c = t[i..].chars().next().unwrap();
+                match how {
+                    0 => format!("{}{}", &t[..i], &t[i + c.len_utf8()..]),
+                    1 => format!("{}{}{}", &t[..i], ins, &t[i + c.len_utf8()..]),
+                    _ => format!("{}{}{}", &t[..i], ins, &t[i..]),
+                }
+            }),
+        1 => valid,
+        1 => proptest::sample::select(crate::sock::GARBAGE).prop_map(|s| s.to_string()),
+        1 => "[@a-z(),:\"\\\\ {}]{0,24}",
+    ]
+    .prop_map(|text| TextCase { text })
+}
+
+pub fn check_text(case: &TextCase) -> Verdict {
+    let mut v = Verdict::new();
+    let r = std::panic::catch_unwind(|| peel_envelope_header_str(&case.text).map(|e| flatten(&e).map(|f| f.0)));
+    match r {
+        Ok(Ok(_)) => v.class("reader:accepted"),
+        Ok(Err(_)) => {
+            v.class("reader:rejected");
+            v.nontrivial();
+        }
+        Err(e) => {
+            let msg = if let Some(m) = e.downcast_ref::<&str>() {
+                m.to_string()
+            } else if let Some(m) = e.downcast_ref::<String>() {
+                m.clone()
+            } else {
+                "?".to_string()
+            };
+            let what = if msg.contains("Incomplete") {
+                "parser-incomplete"
+            } else if msg.contains("CharTryFromError") {
+                "surrogate-escape"
+            } else {
+                "other"
+            };
+            v.fail(format!("reader:panic:{}", what), format!("peel_envelope_header_str({}) panicked: {}", show(&case.text), msg));
+        }
+    }
+    v
+}
